@@ -3,7 +3,7 @@ from __future__ import annotations
 from . import smt
 from .smt import Term
 from .types import PT, INT, BOOL, EXT, NONE, STR, Opt, Seq, Set, Arr, Map, Tup
-from .values import SV, ObjRef, EnumVal, Unsupported
+from .values import SV, ObjRef, EnumVal, Unsupported, TypeMismatch
 
 
 class Ops:
@@ -84,7 +84,7 @@ class Ops:
             return smt.App(f"some_{s}", (inner,), s)
         if pt.kind == "ext" and want.kind == "int":
             return self.fin_v(t)
-        raise Unsupported(f"cannot coerce {pt} to {want} ({t})")
+        raise TypeMismatch(f"cannot coerce {pt} to {want} ({t})")
 
     def sv(self, v, want: PT = None) -> SV:
         if isinstance(v, SV) and (want is None or v.pt == want):
@@ -258,6 +258,9 @@ class Ops:
             return smt.And(*[self.eq(x, y) for x, y in zip(xs, ys)])
         if pa.kind == "none" or pb.kind == "none":
             return smt.FALSE
+        scalar = {"int", "bool", "ext", "enum", "ref", "str", "rec"}
+        if pa.kind in scalar and pb.kind in scalar and (pa.kind != pb.kind or pa.name != pb.name):
+            return smt.FALSE  # values of unrelated Python types are never equal
         raise Unsupported(f"equality between {pa} and {pb}")
 
     # ---------------- arithmetic / comparison
